@@ -255,3 +255,56 @@ Example scenarios_on_the_seeded_order :
       [scen 1 false [1; 1] [] [] 0 3; scen 1 true [1] [1] [] 0 3; scen 1 true [] [1; 1; 1] [] 0 3; scen 2 true [1] [] [1] 2 3]
   = [([0], true); ([0], true); ([5], false); ([0; 0], true)].
 Proof. vm_compute. reflexivity. Qed.
+
+(* ---------------------------------------------------------------- round 8: the service mutex is not re-entered *)
+Lemma lock_order_ok_sound : forall tbl, lock_order_ok tbl = true -> forall x, In x tbl ->
+  mm_relock x = false /\ forall c, In c (mm_held_self x) -> may_lock (lock_fuel tbl) tbl (mm_type x) [] c = false.
+Proof.
+  intros tbl H x Hin. unfold lock_order_ok in H. rewrite forallb_forall in H. specialize (H x Hin).
+  unfold mm_ok in H. apply andb_true_iff in H. destruct H as [H1 H2]. split.
+  - now apply negb_true_iff in H1.
+  - intros c Hc. destruct (may_lock (lock_fuel tbl) tbl (mm_type x) [] c) eqn:E; [| reflexivity].
+    assert (Hr : In c (relocking_calls tbl x)) by (unfold relocking_calls; apply filter_In; split; assumption).
+    destruct (relocking_calls tbl x); [contradiction | discriminate].
+Qed.
+
+Lemma locking_method_may_lock : forall tbl T m x f, find_mm tbl T m = Some x -> mm_locks x = true -> may_lock (S f) tbl T [] m = true.
+Proof. intros tbl T m x f H H0. cbn. rewrite H, H0. reflexivity. Qed.
+
+(* a method that locks through one more call on the same receiver *)
+Lemma caller_of_a_locking_method_may_lock : forall tbl T m x c y f, find_mm tbl T m = Some x -> In c (mm_self_calls x) -> c <> m ->
+  find_mm tbl T c = Some y -> mm_locks y = true -> may_lock (S (S f)) tbl T [] m = true.
+Proof.
+  intros tbl T m x c y f H Hc Hne Hy Hl. cbn [may_lock existsb]. rewrite H.
+  apply orb_true_iff. right. apply existsb_exists. exists c. split; [assumption |].
+  cbn [may_lock existsb]. destruct (String.eqb c m) eqn:E; [apply String.eqb_eq in E; contradiction |].
+  cbn. rewrite Hy, Hl. reflexivity.
+Qed.
+
+(* what the obligation excludes: under its mutex no method calls, on the same object, a method that locks that mutex -- directly
+   or through one more call (deeper chains: lock_order_ok_sound) -- nor writes R.mtx.Lock() itself *)
+Lemma no_re_entry : forall tbl, lock_order_ok tbl = true -> forall x c y, In x tbl -> In c (mm_held_self x) ->
+  find_mm tbl (mm_type x) c = Some y ->
+  mm_relock x = false /\ mm_locks y = false /\
+  forall d z, In d (mm_self_calls y) -> d <> c -> find_mm tbl (mm_type x) d = Some z -> mm_locks z = false.
+Proof.
+  intros tbl H x c y Hin Hc Hy. destruct (lock_order_ok_sound tbl H x Hin) as [Hr Hm]. specialize (Hm c Hc).
+  split; [assumption |]. split.
+  - destruct (mm_locks y) eqn:E; [| reflexivity].
+    unfold lock_fuel in Hm. rewrite (locking_method_may_lock _ _ _ _ _ Hy E) in Hm. discriminate.
+  - intros d z Hd Hne Hz. destruct (mm_locks z) eqn:E; [| reflexivity].
+    unfold lock_fuel in Hm. destruct (List.length tbl) as [| n] eqn:El.
+    + destruct tbl; [contradiction | discriminate].
+    + rewrite (caller_of_a_locking_method_may_lock _ _ _ _ _ _ _ Hy Hd Hne Hz E) in Hm. discriminate.
+Qed.
+
+Example shipped_shape_keeps_the_lock_order : lock_order_ok mtx_core = true /\ lockers_present mtx_core = true.
+Proof. vm_compute. split; reflexivity. Qed.
+(* seeded change C05-h: Request calls PlanFlush inside its locked region *)
+Example seeded_h_re_enters_the_mutex :
+  lock_order_ok mtx_seeded_h = false /\
+  lock_order_offenders mtx_seeded_h = [("InsertServiceV2", "Request", false, ["PlanFlush"])]%string.
+Proof. vm_compute. split; reflexivity. Qed.
+Example re_entry_through_a_recursive_helper :
+  lock_order_offenders mtx_through_helper = [("InsertServiceV2", "Request", false, ["flushNow"])]%string.
+Proof. vm_compute. reflexivity. Qed.
